@@ -14,6 +14,48 @@ CHECKS = {
              "(byte-exact signed payload / digest / signature, or must-reject)",
         assumptions=TX_ASSUME,
     ),
+    "C07": dict(
+        level="model_checking",
+        mc=[dict(module="MC_Rlp", workers=16)],
+        gen=[dict(module="Gen_C07", slices=dict(quick=8, thorough=16))],
+        rule="MC_Rlp: exhaustive round trip / non-canonical-variant rejection / header inverse over the bounded "
+             "universe; Gen_C07: calldata of every length 0..Lmax and every byte value, every integer width 1..32 "
+             "(min, max), access-list payload sizes across 55/56, 255/256, 65535/65536, calldata around 2^16 (2^24 "
+             "thorough), hook sweeps of rlp::{len,bytes,uint,list}; non-trivial = distinct inputs with a byte-exact "
+             "expectation",
+        assumptions=TX_ASSUME,
+    ),
+    "C01": dict(
+        level="model_checking",
+        mc=[dict(module="MC_Bip39", workers=8)],
+        gen=[dict(module="Gen_C01", slices=dict(quick=8, thorough=16))],
+        rule="MC_Bip39: the unpack/pack loops on symbolic bit tokens for every word count 0..40 (universal over "
+             "entropy data); Gen_C01: every word count 0..40 x 4 entropy patterns (adversarial truncated-checksum "
+             "phrases for non-standard counts), every checksum bit flipped, unknown/case-variant tokens at 4 positions, "
+             "every word index at every position of a 24-word phrase (stride 16 quick / 1 thorough), all 2048 "
+             "candidates for the final word, whitespace layouts, 960 one-hot entropies through generation; "
+             "non-trivial = distinct phrases of list words with a singleton allowed outcome",
+        assumptions=["SHA-256 is a trusted primitive", "the spec's word list is the pinned canonical BIP-39 list"],
+    ),
+    "C02": dict(
+        level="model_checking",
+        mc=[dict(module="MC_Bip39", workers=8)],
+        gen=[dict(module="Gen_C02", slices=dict(quick=4, thorough=16))],
+        rule="Gen_C02: valid phrases of the five lengths x {canonical, irregular whitespace layout} x 28 passphrases "
+             "of the normalisation classes (NFKD-equivalent spellings side by side) plus PRNG mixes; every seed is "
+             "compared with PBKDF2(UTF8(canonical phrase), UTF8(NFKD(mnemonic+pass)), 2048, 64) from Bip39.tla",
+        assumptions=["PBKDF2-HMAC-SHA512 and NFKD are trusted Java primitives (JDK 17 = Unicode 13; passphrase "
+                     "alphabet restricted to characters assigned before Unicode 6)"],
+    ),
+    "C12": dict(
+        level="model_checking",
+        mc=[dict(module="MC_Bip39", workers=8)],
+        gen=[dict(module="Gen_C12", slices=dict(quick=4, thorough=8))],
+        rule="Gen_C12: generation through the interposed getentropy: 960 one-hot feeds (every entropy bit of every "
+             "size), pattern/PRNG feeds, every requested length 0..40 with a working and a refusing source (refusal "
+             "at request 0 and at 0..3), real OS entropy with logged grants",
+        assumptions=["in-process link-time interposition of getentropy observes exactly what rand::get_entropy receives"],
+    ),
 }
 
 # Text for MANIFEST.json (tools/mkmanifest.py)
@@ -27,4 +69,32 @@ MANIFEST_TEXT = {
              "RLP decoder written in TLA+ must recover every field and the recovered signer must be the key's address.",
         design_ref="6 (C06)", note=_TRUST,
         technique="TLA+ spec + TLC trace validation of generated workloads (spec-to-impl replay)"),
+    "C01": dict(
+        text="TLC checks on the specification that the accumulator loop and the 64-bit window read implement the "
+             "declarative 8-bit/11-bit regrouping for all word counts and, run on symbolic bit tokens, for all "
+             "entropy values; every generated phrase (valid, damaged, adversarial for wrong length tables, all words "
+             "x positions, all final-word candidates) is parsed by the real library and the outcome validated by "
+             "TLC against Bip39.tla's acceptance predicate, canonical print and length.",
+        design_ref="6 (C01)", note=_TRUST,
+        technique="TLC model check on symbolic bits + TLC trace validation of spec-generated phrases"),
+    "C02": dict(
+        text="Every seed returned by the real library for spec-generated (phrase layout, passphrase) pairs is validated "
+             "by TLC against the TLA+ definition over the PBKDF2/NFKD primitives, which makes layout independence and "
+             "NFKD equivalence consequences of the definition.",
+        design_ref="6 (C02)", note=_TRUST + " TLA+ is an executable functional reference here.",
+        technique="TLA+ functional spec + TLC trace validation"),
+    "C12": dict(
+        text="Generation is run against an interposed entropy source whose grants/refusals are logged; TLC validates "
+             "each recorded generation against the spec: printed phrase = PhraseOf(granted bytes), entropy is a slice "
+             "of one grant, a refusal forces an error, unsupported lengths are refused, the phrase parses back.",
+        design_ref="6 (C12)", note=_TRUST,
+        technique="TLA+ environment model + TLC trace validation with fault injection at every request"),
+    "C07": dict(
+        text="TLC proves on the specification (MC_Rlp, exhaustive over a bounded structurally complete universe) that "
+             "the strict decoder inverts the encoder and rejects every non-canonical variant; the implementation is "
+             "bound to that encoder by trace validation: signed transactions sweeping every calldata length / byte "
+             "value / integer width / list size boundary must equal the spec encoding byte for byte and decode "
+             "strictly to the original values; the private rlp functions are swept directly through the hooks.",
+        design_ref="6 (C07)", note=_TRUST,
+        technique="TLC exhaustive model check of the RLP spec + TLC trace validation binding the implementation"),
 }
